@@ -84,4 +84,12 @@ CHECKS = {
         "design_ref": "DESIGN.md section 3, C18",
         "note": "HDF5 skipped (h5py absent; counted). Containers compared by emptiness, shape, dtype kind and exact values.",
     },
+    "C12": {
+        "technique": "exhaustive field x value-class x path acceptance grid (differential between constructor, YAML, setter, Processor.set and sweep against the documented range table) plus property-based testing of generated whole configuration documents (YAML vs Python construction differential)",
+        "text": "The grid of 14 validated fields x 6 value classes x 5 paths x detector types is enumerated completely on every run: a path must accept a value iff it is inside the documented range. "
+                "Generated documents (4 detector types, exposure/observation, schedules in 12 renderings, numpy-expression parameter values, probe pipelines with arbitrary arguments, permuted keys) are loaded "
+                "and every attribute is compared with the document; running the loaded objects must equal running Python-built objects. All documents with 0 or >=2 modes/detectors must be refused.",
+        "design_ref": "DESIGN.md section 3, C12",
+        "note": "Range table transcribed from docstrings and error messages. Calibration documents are exercised by C10/C11.",
+    },
 }
